@@ -73,9 +73,9 @@ class AbstractDeme(ABC):
 
     @property
     def centroid(self) -> np.ndarray:
-        if self._centroid is None:
-            self._centroid = compute_centroid(self.current_population)
-        return self._centroid
+        # The population changes with every metaepoch, so a memoised value goes stale
+        # (only CMADeme used to reset it): always compute it from the current population.
+        return compute_centroid(self.current_population)
 
     @property
     def history(self) -> list[list[Individual]]:
